@@ -230,7 +230,7 @@ def _sample_worker(job):
         s.label("base-documents-sampled")
         run_doc(s, text, X.plain(node), byte_level, sample_file=True)
 
-    H.hyp_run(c02.tree_st(10), body, n, seed)
+    H.hyp_run(c02.tree_st(10), body, n, seed, stats=s)
     return s
 
 
